@@ -31,8 +31,8 @@ Ops(s) ==
   \cup {Op("atomiccreate", d, n, NoD, NoD, 0, 0, 0, dat) : d \in Dirs, n \in Names, dat \in Datas}
   \cup {Op("list", d, NoD, NoD, NoD, 0, 0, 0, <<>>) : d \in Dirs}
 
-Bounded(s) == /\ Len(s.data) <= MaxIno /\ Len(s.fds) <= MaxFd /\ Cardinality(s.live) <= MaxLive
-              /\ \A i \in 1..Len(s.data) : Len(s.data[i]) <= MaxLen
+Bounded(s) == /\ Cardinality(DOMAIN s.data) <= MaxIno /\ Cardinality(DOMAIN s.fds) <= MaxFd /\ Cardinality(s.live) <= MaxLive
+              /\ \A i \in DOMAIN s.data : Len(s.data[i]) <= MaxLen
 
 Init == fs = InitFs /\ last = [op |-> Op("init", NoD, NoD, NoD, NoD, 0, 0, 0, <<>>), r |-> Unit, pre |-> InitFs] /\ hist = <<>>
 
@@ -52,9 +52,9 @@ Spec == Init /\ [][Next]_vars
 -----------------------------------------------------------------------------
 TypeOK == /\ fs.dirs \subseteq Dirs
           /\ DOMAIN fs.dirent \subseteq (Dirs \X Names)
-          /\ \A p \in DOMAIN fs.dirent : fs.dirent[p] \in 1..Len(fs.data)
-          /\ fs.live \subseteq 1..Len(fs.fds)
-          /\ \A h \in 1..Len(fs.fds) : fs.fds[h].ino \in 1..Len(fs.data) /\ fs.fds[h].mode \in {"a", "r"}
+          /\ \A p \in DOMAIN fs.dirent : fs.dirent[p] \in DOMAIN fs.data
+          /\ fs.live \subseteq DOMAIN fs.fds
+          /\ \A h \in DOMAIN fs.fds : fs.fds[h].ino \in DOMAIN fs.data /\ fs.fds[h].mode \in {"a", "r"}
 
 \* Create fails without side effects iff the name exists
 CreateRule == last.op.op = "create" =>
@@ -63,13 +63,13 @@ CreateRule == last.op.op = "create" =>
      /\ (last.r.ok = 1 => last.r.h \notin last.pre.live /\ fs.data[fs.dirent[Path(last.op)]] = <<>>)
 \* every Create / Open yields an independent (fresh) descriptor
 FreshDescriptor == last.op.op \in {"create", "open"} /\ last.r.ok = 1 =>
-     last.r.h \in fs.live /\ last.r.h > Len(last.pre.fds)
+     last.r.h \in fs.live /\ last.r.h \notin DOMAIN last.pre.fds
 \* hard links share contents
 LinkShares == last.op.op = "link" /\ last.r.ok = 1 => fs.dirent[Path2(last.op)] = fs.dirent[Path(last.op)]
 \* a deleted file stays readable through open descriptors: only Append/AtomicCreate touch data, and never shrink it
-DataMonotone == [][\A i \in 1..Len(fs.data) : Len(fs'.data) >= i /\ Len(fs'.data[i]) >= Len(fs.data[i])
+DataMonotone == [][\A i \in DOMAIN fs.data : i \in DOMAIN fs'.data /\ Len(fs'.data[i]) >= Len(fs.data[i])
                       /\ SubSeq(fs'.data[i], 1, Len(fs.data[i])) = fs.data[i]]_vars
-OnlyOwnInode == [][\A i \in 1..Len(fs.data) : fs'.data[i] # fs.data[i] =>
+OnlyOwnInode == [][\A i \in DOMAIN fs.data : fs'.data[i] # fs.data[i] =>
                       last'.op.op = "append" /\ fs.fds[last'.op.h].ino = i]_vars
 \* ReadAt returns exactly the existing bytes of [off, off+len)
 ReadExact == last.op.op = "readat" =>
